@@ -131,6 +131,7 @@ def mon_conn(ops, impl):
     alive = False
     role, reset_max = "client", "-"
     last_st, last_op_was_input = "", True
+    held = {}
     for i, (o, a) in enumerate(zip(ops, impl)):
         w = o.split(" ")
         if w[0] == "cn_new":
@@ -141,6 +142,7 @@ def mon_conn(ops, impl):
             if w[1] == "server":
                 out.append((i, "mon_cn rx S:0:0:-"))     # the peer's first SETTINGS is fed by cn_new itself
             slots = []
+            held = {}
             budget_open = True
             alive = True
             role = w[1]
@@ -177,6 +179,23 @@ def mon_conn(ops, impl):
         if w[0] in ("cn_req", "cn_reqc", "cn_accept") and r.startswith("ok:"):
             p = r.split(":")
             slots.append(int(p[2]))
+            if w[0] == "cn_accept":
+                held[int(p[2])] = 0           # the server's RecvStream comes with the request
+        if w[0] == "cn_resp" and r.startswith("ok:") and int(w[1]) < len(slots):
+            held[slots[int(w[1])]] = 0        # the client's RecvStream comes with the response
+        # C03: octets handed to the application and not released yet, per stream with a live receive handle
+        if w[0] in ("cn_read", "cn_release", "cn_drop") and len(w) > 1 and w[1].isdigit() and int(w[1]) < len(slots):
+            sid = slots[int(w[1])]
+            if w[0] == "cn_read" and r.startswith("data:") and sid in held:
+                held[sid] += int(r.split(":")[1])
+            elif w[0] == "cn_release" and r == "ok" and sid in held:
+                held[sid] -= int(w[2])
+            elif w[0] == "cn_drop" and w[2] in ("body", "all", "fc"):
+                held.pop(sid, None)           # the handle is gone (or shared): stop tracking
+            if sid in held and held[sid] >= 0 and st not in ("-", "gone", ""):
+                out.append((i, f"mon_held {sid} {held[sid]} {st}"))
+        if w[0] == "cn_keepfc" and len(w) > 1 and w[1].isdigit() and int(w[1]) < len(slots):
+            held.pop(slots[int(w[1])], None)
         if w[0] == "cn_reset" and r == "ok" and int(w[1]) < len(slots):
             out.append((i, f"mon_cn reset {slots[int(w[1])]} {_f(a, 'cb=') if _f(a, 'cb=') != '-' else 0}"))
         if w[0] == "cn_target":
